@@ -734,5 +734,5 @@ func evaluate(s *Script, r *Req, o *outcome) (nontrivial bool, labels []string, 
 }
 
 func TestRoundTrip(t *testing.T) {
-	vt.Run(t, c16, vt.N(16000, 360000), gen, run)
+	vt.Run(t, c16, vt.N(14000, 360000), gen, run)
 }
